@@ -26,7 +26,7 @@ PATHS = [
     "incdec-elem:pre", "incdec-elem:post",
     "arg:lit", "arg:var", "arg:default", "arg:expr", "arg:call", "arg:tern", "arg:second",
     "return:var", "return:expr", "return:lit", "return:tern", "return:call", "return:nested", "return:direct",
-    "elem1:lit", "elem1:var", "elem1:tern", "elem1:call", "elem1:global", "elem1-compound:add",
+    "elem1:lit", "elem1:var", "elem1:tern", "elem1:call", "elem1:global", "elem1:var-index", "elem1-compound:add", "elem1-compound:var-index",
     "elemN:lit2", "elemN:var2", "elemN:lit3", "elemN:tern", "elemN:call",
     "literal1:lit", "literal1:var", "literalN:lit",
     "global:scalar", "global:array", "global:const",
@@ -383,6 +383,8 @@ def build(path, t, v, rng):
         elif how == "call":
             F = [IDENT]
             M = [A, "(asg (idx 1 %d) (call 2 %d))" % (k, v)]
+        elif how == "var-index":
+            M = ["(decl 0 0 int 4 %d)" % k, A, "(asg (idx 1 (v 4)) %d)" % v]
         else:
             raise ValueError(path)
         M += [_readback_elem(1, [k])] + [_readback_elem(1, [j]) for j in range(n) if j != k]
@@ -393,8 +395,12 @@ def build(path, t, v, rng):
         if r is None:
             return None
         start, op, operand = r
-        M = ["(arr 0 %s 1 (3) (0 %d 0))" % (t, start), "(casg %s (idx 1 1) %d)" % (op, operand),
-             _readback_elem(1, [1]), _readback_elem(1, [0]), _readback_elem(1, [2])]
+        ix = "1"
+        if how == "var-index":
+            M = ["(decl 0 0 int 4 1)"]        # a[v4] op= d: the parser copies a variable index into the desugared right-hand side
+            ix = "(v 4)"
+        M += ["(arr 0 %s 1 (3) (0 %d 0))" % (t, start), "(casg %s (idx 1 %s) %d)" % (op, ix, operand),
+              _readback_elem(1, [1]), _readback_elem(1, [0]), _readback_elem(1, [2])]
         extra = [0, 0]
         query = "update %s %s %d %d" % (mpath, t, start, operand)
     elif p == "elemN":
